@@ -25,7 +25,7 @@ import (
 
 const target = "x.io/target"
 
-var allPaths = []string{"", "a", "x.io/p", "github.com/a/b/v2", target}
+var allPaths = []string{"", "a", "x.io/p", "github.com/a/b/v2", "gopkg.in/yaml.v3", target}
 var idents = []string{"T", "string"}
 
 type node struct {
@@ -330,11 +330,11 @@ type space struct {
 
 func run(c *core.Ctx) {
 	full := heads(allPaths, idents)
-	three := []head{{"", "T"}, {"x.io/p", "T"}, {target, "T"}}
+	three := []head{{"", "T"}, {"x.io/p", "T"}, {target, "T"}, {"gopkg.in/yaml.v3", "T"}}
 	two := []head{{"", "T"}, {"x.io/p", "T"}}
 	spaces := []space{
 		{"all-heads depth1 width3", full, 1, 3},
-		{"3-heads depth2 width2", three, 2, 2},
+		{"4-heads depth2 width2", three, 2, 2},
 		{"2-heads depth3 width2", two, 3, 2},
 	}
 	if c.Thorough() {
@@ -380,7 +380,7 @@ func replay(c *core.Ctx, raw json.RawMessage) {
 func init() {
 	core.Register(&core.Prop{
 		ID: "C15", Level: "model_checking", Run: run, Replay: replay,
-		Rule: "every reference string of the grammar ref ::= [path '.'] ident ['[' ref {',' ref} ']'] inside the listed (heads, depth, width) spaces, heads = paths {none, a, x.io/p, github.com/a/b/v2, the target package} x idents {T, string}; non-trivial = has a bracketed argument list; states = distinct (depth, top-level path?, argument count) classes",
+		Rule: "every reference string of the grammar ref ::= [path '.'] ident ['[' ref {',' ref} ']'] inside the listed (heads, depth, width) spaces, heads = paths {none, a, x.io/p, github.com/a/b/v2, gopkg.in/yaml.v3 (dot in the last element), the target package} x idents {T, string}; non-trivial = has a bracketed argument list; states = distinct (depth, top-level path?, argument count) classes",
 		Assumptions: []string{
 			"paths containing '[' ',' ']' or '/vendor/' are outside the grammar",
 			"the reference rewriter takes import names from the tracker (uniqueness/validity of names is C03's subject)",
